@@ -82,3 +82,16 @@ package tparsetime
 //@   ensures  0 <= result.0 && result.0 < 1000000000
 //@   loop 1: invariant 1 <= i && i <= 10 && i <= len(s) && scale == scaleat(i) && nsec == fracsum(s, i) && 0 <= nsec && nsec <= 1000000000 - scale * 10 + (i == 10 ? 9 : 0)
 //@   loop 1: decreases 10 - i
+
+// ==== configuration: verify => construct (C16) ===================================================================================
+//@ pure func cfgok(cfg *Config, s base.LogSchema) bool := len(cfg.Key) > 0 && base.hasf(s, key(cfg.Key)) && len(cfg.ErrorLabel) > 0
+//@ func (cfg *Config) VerifyConfig(schema base.LogSchema) error
+//@   property C16
+//@   requires cfg != nil
+//@   modifies nothing
+//@   ensures[accepted-config-is-constructible] result == nil ==> cfgok(cfg, schema)
+//@ func (cfg *Config) NewTransform(schema base.LogSchema, parentLogger logger.Logger, customCounterRegistry base.LogCustomCounterRegistry) base.LogTransform
+//@   property C16
+//@   requires cfg != nil && cfgok(cfg, schema) && customCounterRegistry != nil
+//@   modifies nothing
+//@   ensures  result != nil
